@@ -1,5 +1,7 @@
 import SignaloModel.Proofs.BridgeDeque
 import SignaloModel.Proofs.DequeMin
+import SignaloModel.Proofs.DequeSuffix
+import SignaloModel.Proofs.OwnedDeque
 /-!
 # C04 — Moving min/max/bounds equal the extrema of the last min(k,N) samples
 
@@ -8,6 +10,8 @@ The property theorems for C04: `#check` prints each statement, `#print axioms` i
 -/
 open SignaloModel
 
+#check @SignaloModel.Deque.taps_length_run
+#check @SignaloModel.Deque.taps_suffixMax_run
 #check @Registry.max_registry_correct
 #check @Registry.min_registry_correct
 #check @Registry.extremum_of_isMax
@@ -19,6 +23,8 @@ open SignaloModel
 #check @Deque.stepU_correct
 #check @Deque.tick_rel
 
+#print axioms SignaloModel.Deque.taps_length_run
+#print axioms SignaloModel.Deque.taps_suffixMax_run
 #print axioms Registry.max_registry_correct
 #print axioms Registry.min_registry_correct
 #print axioms Registry.extremum_of_isMax
